@@ -9,7 +9,10 @@ CHECKS["C20"] = dict(
                 "Per streamer: per-channel sequence numbers strictly increase (no duplicate, no reorder), every series belongs to a requested key set, nothing written by the unauthorised writer arrives, and a stable always-ready streamer (slow-consumer timeout raised to 60 s through the verif hook) receives every frame whose Write returned after its open ack. "
                 "With the production 20 ms timeout and stalled consumers everything must still return. Schedules are sampled, not enumerated; the race detector is the schedule-independent oracle."),
     level_note="Trusted: the verif hook WithVerifStreamingConfig (sets the existing unexported streaming configuration), the race detector, the 120 s stall watchdog (declared exception: a stall that long, where microseconds are expected, is reported).",
-    rule=("plans: writers x frames(1-40) x samples per frame(1-3), streamer kinds {stable, re-subscribe after k frames of writer 0, disconnect after k frames, stalled}; 20% of plans use the production 20 ms timeout. "
+    rule=("plans: writers x frames(1-40) x samples per frame(1-3), one writer in three also owns an int64 data channel carried in every frame, one writer in four has a lower-authority contender "
+          "opened on the index, on the data channel only, or on both; streamer kinds {stable, re-subscribe after k frames of writer 0, disconnect after k frames, stalled} over subsets of all index and data keys; "
+          "20% of plans use the production 20 ms timeout. Always-ready stable streamers must receive every frame on their keys; always-ready re-subscribed streamers every frame on a key of the new set whose Write began "
+          "after the request was handed over (unbuffered inlet) and every frame on keys in both sets. "
           "Non-trivial = plan with >=2 writers and a streamer that re-subscribed or disconnected while writes were in flight; distinct by plan hash."),
     assumptions=["one authorised writer per channel, so per-channel sequence numbers identify a writer's write order",
                  "after a re-subscribe, two further frames of the old key set are tolerated (one buffered in the outlet, one in flight)"],
